@@ -613,7 +613,19 @@ func (p *prog) genCopy() *op {
 	dk, _ := p.key(db, 20)
 	var hdr s3c.H
 	class := "directive-default"
-	switch p.r.Intn(6) {
+	switch p.r.Intn(9) {
+	case 4:
+		// REPLACE without a tag set: the copy has no tags
+		hdr.Set("x-amz-tagging-directive", "REPLACE")
+		class = "tagging-directive-replace-bare"
+	case 5:
+		hdr.Set("x-amz-tagging-directive", "REPLACE")
+		hdr.Set("x-amz-tagging", "")
+		class = "tagging-directive-replace-empty"
+	case 6:
+		hdr.Set("x-amz-tagging-directive", "COPY")
+		hdr.Set("x-amz-tagging", "ignored=yes")
+		class = "tagging-directive-copy"
 	case 0:
 		hdr.Set("x-amz-metadata-directive", "COPY")
 		hdr.Set("x-amz-meta-ignored", "must-not-appear")
